@@ -140,7 +140,12 @@ def save_results_info():
     mod, _ = parse("nessai/flowsampler.py")
     fn = find_function(mod, "save_results", cls="FlowSampler")
     exts = sorted({n.value for n in ast.walk(fn) if isinstance(n, ast.Constant) and n.value in ("json", "hdf5", "h5")})
-    return {"extensions_mentioned": exts}
+    how = "not recognised (the correspondence on dotted / relative directories decides)"
+    for n in ast.walk(fn):
+        if isinstance(n, ast.Assign) and unparse(n.targets[0]) == "ext":
+            if unparse(n.value) in ("os.path.splitext(filename)[1].lstrip('.')", "os.path.splitext(filename)[1][1:]"):
+                how = "os.path.splitext of the path: last component only (= path_ext)"
+    return {"extensions_mentioned": exts, "extension_taken_from": how}
 
 
 if __name__ == "__main__":
